@@ -10,7 +10,7 @@ class C03(IdProp):
     coq_imports = "Graph.MixedGraph Dsl.Syntax Dsl.Build Alg.Id Alg.Idc Corr.Id Corr.Idc"
     budgets = {"quick": 450, "thorough": 4500}
     rule = ("random ADMGs with 3..6 nodes x pairwise disjoint X (possibly empty), Y, Z (non-empty); non-trivial: rule 2 moved at least one condition "
-            "or ID used a topological order; distinct by (graph, X, Y, Z)")
+            "or ID used a topological order; distinct by (graph, X, Y, Z); one query per shape of run of IDC + ID (harness/corpus/id_traces.json, fresh node names)")
     explanation = ("identify_outcomes(conditions=Z) must be one of the results of the all-visiting-orders Gallina model of idc(); each estimand is "
                    "evaluated exactly against P(y,z|do x)/P(z|do x) on a random positive SCM")
     modelled = ["id_c.py idc, rule_2_of_do_calculus_applies (on Graph/DSep.v); utils.exchange_observation_with_action/uncondition; dsl normalize_marginalize"]
